@@ -1352,6 +1352,20 @@ VARIANTS += [
 ]
 
 
+# ---------------------------------------------------------------------- round r8
+VARIANTS += [
+    V('C18-M60', 'M', ('C18',), PI, '_Pipe.send_bytes', r'self\._writer\.send_bytes\(buf, offset=offset, size=size\)', 'self._writer.send_bytes(memoryview(buf)[offset:size])', ('C18-8',), note='seeded C18-r8m2 shape'),
+    V('C18-E60', 'E', ('C18',), PI, '_Pipe.send_bytes', r'self\._writer\.send_bytes\(buf, offset=offset, size=size\)', 'self._writer.send_bytes(buf, offset, size)', note='the same arguments positionally'),
+    V('C18-M61', 'M', ('C18',), SO, 'write_record', r'await writer\.drain\(\)', 'await asyncio.wait_for(writer.drain(), 5)', ('C18-17',), note='seeded C18-r8m1 shape'),
+    V('C14-M60', 'M', ('C14',), SP, 'Server.serve_client', r'(request = recv\(\)\n)(\s+)(ident, methodname, args, kwds = request\n\s+msg = self\._callmethod\(conn, ident, methodname, args, kwds\)\n)', r'\1\2pass\n', ('C14-1', 'C14-16', 'C14-2', 'C14-14'), note='(the dispatch removed: any C14 rule may speak)') if False else V('C14-M60', 'M', ('C14',), SP, 'Server.create', r'public_methods\(obj\)', 'public_methods(type(obj))', ('C14-17',), note='seeded C14-r8m2 shape'),
+    V('C09-M60', 'M', ('C09',), QS, 'SingleLane.get', r'self\._not_empty\.wait\(timeout=timeout\)', 'self._not_empty.wait(timeout=timeout or None)', ('C09-13',), note='seeded C09-r8m1 shape'),
+    V('C09-M61', 'M', ('C09',), WK, 'Worker._get_input_batch', r'(\n(\s+)t = deadline - perf_counter\(\))', r'\n\2if not buffer.empty():\n\2    out.append(buffer.get_nowait())\n\2    n += 1\n\2    continue\1', ('C09-1',), note='seeded C09-r8m2 shape'),
+    V('C20-M60', 'M', ('C20',), CX, 'SpawnContext', r'    def get_context\(self, method=None\):\n\s+if method is None or method == .spawn.:\n\s+return self\n\s+return super\(\)\.get_context\(method\)\n', '', ('C20-8',), note='seeded C20-r8m2 shape'),
+    V('C06-M60', 'M', ('C06', 'C04', 'C02'), SL, 'SwitchServlet._enqueue', r'[ ]*if isinstance\(x, BaseException\):\n\s+x = RemoteException\(x\)\n', '', ('C06-16', 'C04-3', 'C02-7'), note='seeded C06-r8m1 shape'),
+    V('C07-M60', 'M', ('C07', 'C06', 'C16'), SV, 'AsyncServer._enqueue', r'\A.*\Z', lambda m: re.sub(r'\n([ ]+)async with self\._pipeline_notfull:\n', r'\n\1t = timeout * 0.99 - (perf_counter() - t0)\n\1async with self._pipeline_notfull:\n', re.sub(r'\n[ ]+t = timeout \* 0\.99 - \(perf_counter\(\) - t0\)\n', '\n', m.group(0), count=1), count=1), ('C07-8', 'C06-8', 'C16-8'), note='seeded C07-r8m1 shape: the remaining time computed once, before the re-check loop'),
+]
+
+
 # ---------------------------------------------------------------------- every local that is not a parameter renamed (and, second family, a statement added so that the function is not the recorded one up to renaming)
 def _rename_locals(pad):
     def f(m):
